@@ -187,18 +187,19 @@ Section Laid1.
     rewrite (IH _ _ _ (vss_add _ st vs r E)). rewrite <- app_assoc. reflexivity.
   Qed.
 
-  Lemma local_piece1 flv : forall es (pl : list (list N * loc)) cA c0 B lastc st,
+  Lemma local_piece1 flv : forall es (pl : list (list N * loc)) cA c0 B lastc il st,
     Forall Pe1 es -> forallb frag_exp es = true -> forallb tb_shp_exp es = true ->
     chain W c0 (flat_map m_exp es) B -> (length es <= length pl)%nat ->
     (forall p, In p pl -> idok W (snd p) /\ hi W (snd p) <= c0) ->
     InReg W lastc cA c0 -> cA <= c0 ->
+    match il with Some i => colok W i /\ hi W i <= B | None => True end ->
     vss st <> [] -> G W (vss st) c0 B ->
     cl_local_loop (map (fun e => (e, tr_exp flv e, cl1_exp nm flv e)) es) pl st = true /\
-    EvoS W cA B (vss st) (vss (local_loop (map (fun e => (e, tr_exp flv e)) es) pl lastc st)).
+    EvoS W cA B (vss st) (vss (local_loop (map (fun e => (e, tr_exp flv e)) es) pl lastc il st)).
   Proof.
-    intros es pl cA c0 B lastc st He Hf Hs Hx Hlen Hp Hlast HcA Hne Hg.
-    exact (local_piece_gen W (fun e => tr_exp flv e) (fun e => cl1_exp nm flv e) es pl cA c0 B lastc st
-                           (exps_piece1 flv es c0 B He Hf Hs Hx) Hx Hlen Hp Hlast HcA Hne Hg).
+    intros es pl cA c0 B lastc il st He Hf Hs Hx Hlen Hp Hlast HcA Hil Hne Hg.
+    exact (local_piece_gen W (fun e => tr_exp flv e) (fun e => cl1_exp nm flv e) es pl cA c0 B lastc il st
+                           (exps_piece1 flv es c0 B He Hf Hs Hx) Hx Hlen Hp Hlast HcA Hil Hne Hg).
   Qed.
 
   Lemma stats_piece1 flv slv : forall ss a b,
